@@ -284,8 +284,9 @@ class Network:
         """
         with self.graph_lock:
             peer = self.reverse_ip_lookup.pop(address, None)
-            if peer and self.verified_by_public_key_bin.get(peer.public_key.key_to_bin()) is not peer:
-                peer = None  # The cached peer has been removed in the meantime
+            if peer and (self.verified_by_public_key_bin.get(peer.public_key.key_to_bin()) is not peer
+                         or address not in peer.addresses.values()):
+                peer = None  # The cached peer has been removed or has changed its address in the meantime
             if not peer:
                 for p in self.verified_peers:
                     if address in p.addresses.values():
